@@ -12,7 +12,10 @@ COMMON = ['-std=c++20', '-DNDEBUG', '-DCHESSPP_VERIF', '-DLOG_LEVEL=0', '-I', os
           '-I', os.path.join(ROOT, 'harness', 'shim'), '-I', os.path.join(ROOT, 'harness'), '-pthread']
 SAN_FATAL = 'bounds,object-size,null,alignment,return,unreachable,vla-bound,pointer-overflow,bool,enum'
 FLAVOURS = {
-    'asan': dict(cxx=CLANG, flags=['-O1', '-g', '-fno-omit-frame-pointer', '-fsanitize=address,undefined',
+    # -ftrivial-auto-var-init=pattern: automatic variables (and temporaries) that the code leaves uninitialised hold 0xAA..
+    # instead of whatever was on the stack, so a use of them is deterministic: an invalid bool/enum load for UBSan, a wild
+    # pointer for ASan (heap blocks are already filled with 0xbe by the ASan allocator)
+    'asan': dict(cxx=CLANG, flags=['-O1', '-g', '-fno-omit-frame-pointer', '-ftrivial-auto-var-init=pattern', '-fsanitize=address,undefined',
                                    '-fno-sanitize-recover=' + SAN_FATAL, '-DCHESSPP_VERIF_TT_ENTRIES=4096'],
                  link=['-fsanitize=address,undefined', '-lrapidcheck']),
     'fast': dict(cxx=GXX, flags=['-O2', '-DCHESSPP_VERIF_TT_ENTRIES=4096'], link=['-lrapidcheck']),
@@ -22,7 +25,7 @@ FLAVOURS = {
                 link=['-fprofile-instr-generate', '-lrapidcheck']),
     # the real executable for valgrind memcheck (no sanitizer, debug info, little optimisation)
     'vg': dict(cxx=GXX, flags=['-O1', '-g', '-fno-omit-frame-pointer', '-DCHESSPP_VERIF_TT_ENTRIES=4096'], link=[]),
-    'fuzz': dict(cxx=CLANG, flags=['-O1', '-g', '-fno-omit-frame-pointer', '-fsanitize=address,undefined,fuzzer-no-link',
+    'fuzz': dict(cxx=CLANG, flags=['-O1', '-g', '-fno-omit-frame-pointer', '-ftrivial-auto-var-init=pattern', '-fsanitize=address,undefined,fuzzer-no-link',
                                    '-fno-sanitize-recover=' + SAN_FATAL, '-DCHESSPP_VERIF_TT_ENTRIES=4096'],
                  link=['-fsanitize=address,undefined,fuzzer']),
 }
